@@ -125,3 +125,25 @@ Definition run_fetching (st : cfg_store) (p : run_params) (d : dir) : option (re
 (* a process: Runs against the store and the directory as each Run finds them *)
 Definition run_fetching_history (h : list (cfg_store * run_params * dir)) :=
   map (fun s => run_fetching (fst (fst s)) (snd (fst s)) (snd s)) h.
+
+(* ---------------------------------------------------------------- several weeks expiring in one run *)
+
+(* reports(): the expired count files are grouped by the DATE of their TimeEnd
+   as written in the file (`end.Format("2006-01-02")`, in the zone the file
+   names) - not by the instant - and one report is built per date from all
+   the files of that date.  A labelled file: (week label, parsed file). *)
+Definition wfile := (bytes * cfile)%type.
+
+Fixpoint week_labels (l : list wfile) : list bytes :=
+  match l with
+  | [] => []
+  | e :: l' => fst e :: filter (fun w => negb (beq w (fst e))) (week_labels l')
+  end.
+
+Definition week_files (w : bytes) (l : list wfile) : list cfile :=
+  map snd (filter (fun e => beq (fst e) w) l).
+
+(* one report (or none) per label, built from exactly the files of that label, in directory order *)
+Definition week_reports (gate : bool) (u : upload_cfg) (cfgver lastweek : bytes) (x : N) (l : list wfile)
+  : list (bytes * option (report * option report)) :=
+  map (fun w => (w, create_report gate u cfgver w lastweek x (week_files w l))) (week_labels l).
